@@ -12,6 +12,11 @@ BUILT = {
             'thousands of generated block-sparse matrices up to 12x12; each is judged by reconstruction, isometry, '
             'block-sparsity masks and charge multiplicities computed independently of pytenet. Absence is only shown for the enumerated scope.',
             'float64 with 1e-12 relative tolerance; numpy.linalg used by the oracle is trusted', '4 (C11)'),
+    'C01': ('Hypothesis random search over charge-consistent MPS/MPO constructions; independent dense-contraction oracle',
+            'Exploration: generated MPS and MPO (L 1..6, d 1..4, constructed charge layouts incl. unsorted/repeated/over-complete/rank-deficient/sector-disjoint, '
+            'real/complex/integer entries and integer dtype, constructor fills) in both modes; judged by an independent dense contraction before/after, '
+            'isometry of every site tensor, unit norm, bond bounds, sparsity masks, unchanged outer charges and idempotence.',
+            'dense reach d^L <= 4096; 1e-11 relative tolerance', '4 (C01)'),
     'C12': ('Hypothesis random search over designed-spectrum block matrices and boundary tolerances; independent dense-SVD oracle',
             'Exploration: generated block-sparse matrices with designed spectra (decaying, degenerate within/across blocks, rank deficient), '
             'tolerances at 0, random and exactly on cumulative weights, plus two-site tensor splits with all three distributions; judged against numpy '
